@@ -332,6 +332,7 @@ func (E *Engine) zeroValue(t types.Type) Val {
 	if s, ok := leafSortOf(t); ok {
 		switch typeKey(t) {
 		case tTime:
+			E.D.Declare("tzero", "(define-fun tzero () Int (- 62135596800000000000))")
 			return tzero()
 		case tDec:
 			return DecInt(0)
